@@ -4,6 +4,7 @@ import (
 	"fmt"
 	"go/ast"
 	"go/token"
+	"reflect"
 	"strconv"
 	"strings"
 )
@@ -64,6 +65,8 @@ type prCtx struct {
 	recv   string
 	locals map[string]string // local variable -> kind: "bool" | "int" | loop vars "expr" | "stmt" | "ident" | "prop"
 	fresh  int
+	// depth of helper inlining (inline.go)
+	inlineDepth int
 }
 
 func (c *prCtx) fail(n ast.Node, format string, a ...any) {
@@ -293,6 +296,16 @@ func (c *prCtx) intExpr(x ast.Expr) string {
 // the guard is returned: (guardExpr, guardVar) means "match prec_opt guardExpr with Some guardVar".
 func (c *prCtx) cond(x ast.Expr) (code string, guardExpr, guardVar string) {
 	switch t := x.(type) {
+	case *ast.ParenExpr:
+		return c.cond(t.X)
+	case *ast.UnaryExpr:
+		if t.Op == token.NOT {
+			code, ge, gv := c.cond(t.X)
+			if strings.HasPrefix(code, "negb (") && strings.HasSuffix(code, ")") && ge == "" {
+				return code[len("negb (") : len(code)-1], ge, gv // !(x != nil)  =  x == nil
+			}
+			return "negb (" + code + ")", ge, gv
+		}
 	case *ast.Ident:
 		if c.locals[t.Name] == "bool" {
 			return t.Name, "", ""
@@ -363,6 +376,11 @@ func (c *prCtx) stmts(list []ast.Stmt, rest string) string {
 		call, ok := s.X.(*ast.CallExpr)
 		if !ok {
 			c.fail(s, "unsupported statement")
+		}
+		if inl := c.inlineHelper(call); inl != nil {
+			code := c.stmts(inl, "[]")
+			c.inlineDepth--
+			return "(" + code + ") ++ " + tail()
 		}
 		sel, ok := call.Fun.(*ast.SelectorExpr)
 		if !ok {
@@ -442,6 +460,31 @@ func (c *prCtx) stmts(list []ast.Stmt, rest string) string {
 			c.fail(s, "unsupported assignment")
 		}
 		name := exprString(s.Lhs[0])
+		// a local name for a field of the receiver (x := recv.F): the remaining statements
+		// are translated with the field written out again (the name must not be reassigned)
+		if ch := selChain(s.Rhs[0]); len(ch) == 2 && ch[0] == c.recv {
+			if _, isField := s.Rhs[0].(*ast.SelectorExpr); isField {
+				for _, st := range list[1:] {
+					ast.Inspect(st, func(n ast.Node) bool {
+						switch t := n.(type) {
+						case *ast.AssignStmt:
+							for _, l := range t.Lhs {
+								if exprString(l) == name {
+									c.fail(t, "local alias %s of a field is assigned again", name)
+								}
+							}
+						case *ast.IncDecStmt:
+							if exprString(t.X) == name {
+								c.fail(t, "local alias %s of a field is assigned again", name)
+							}
+						}
+						return true
+					})
+				}
+				restStmts := cloneSubst(reflect.ValueOf(list[1:]), map[string]ast.Expr{name: s.Rhs[0]}).Interface().([]ast.Stmt)
+				return c.stmts(restStmts, rest)
+			}
+		}
 		if e, ok := c.precCall(s.Rhs[0]); ok {
 			if e != "self" {
 				c.fail(s, "precedence of a child bound to a variable")
@@ -513,7 +556,13 @@ func (c *prCtx) stmts(list []ast.Stmt, rest string) string {
 		sep := "[]"
 		if len(body) > 0 {
 			if ifs, ok := body[0].(*ast.IfStmt); ok {
-				if be, ok := ifs.Cond.(*ast.BinaryExpr); ok && be.Op == token.GTR && exprString(be.X) == iv && exprString(be.Y) == "0" && ifs.Else == nil {
+				// "not the first element": i > 0, i != 0, 0 < i, 0 != i (i ranges over indices)
+				notFirst := func(be *ast.BinaryExpr) bool {
+					x, y := exprString(be.X), exprString(be.Y)
+					return (x == iv && y == "0" && (be.Op == token.GTR || be.Op == token.NEQ)) ||
+						(x == "0" && y == iv && (be.Op == token.LSS || be.Op == token.NEQ))
+				}
+				if be, ok := ifs.Cond.(*ast.BinaryExpr); ok && notFirst(be) && ifs.Else == nil {
 					sep = c.stmts(ifs.Body.List, "[]")
 					body = body[1:]
 				}
@@ -558,12 +607,31 @@ func indexLoopAsRange(fs *ast.ForStmt) *ast.RangeStmt {
 		return nil
 	}
 	bind, ok := fs.Body.List[0].(*ast.AssignStmt)
-	if !ok || bind.Tok != token.DEFINE || len(bind.Lhs) != 1 || len(bind.Rhs) != 1 {
-		return nil
+	var ix *ast.IndexExpr
+	if ok && bind.Tok == token.DEFINE && len(bind.Lhs) == 1 && len(bind.Rhs) == 1 {
+		ix, _ = bind.Rhs[0].(*ast.IndexExpr)
 	}
-	ix, ok := bind.Rhs[0].(*ast.IndexExpr)
-	if !ok || exprString(ix.X) != exprString(ln.Args[0]) || exprString(ix.Index) != iv {
-		return nil
+	if ix == nil || exprString(ix.X) != exprString(ln.Args[0]) || exprString(ix.Index) != iv {
+		// no element binding: X[i] is used in place; give the element a name
+		elem := &ast.Ident{Name: "elem_" + iv}
+		indexRepl = &indexPattern{x: exprString(ln.Args[0]), i: iv, by: elem}
+		body := cloneSubst(reflect.ValueOf(fs.Body.List), nil).Interface().([]ast.Stmt)
+		indexRepl = nil
+		mentions := false
+		for _, st := range body {
+			ast.Inspect(st, func(n ast.Node) bool {
+				if id, ok := n.(*ast.Ident); ok && id.Name == elem.Name {
+					mentions = true
+				}
+				return true
+			})
+		}
+		if !mentions {
+			return nil
+		}
+		fs = &ast.ForStmt{For: fs.For, Init: fs.Init, Cond: fs.Cond, Post: fs.Post, Body: &ast.BlockStmt{List: append([]ast.Stmt{
+			&ast.AssignStmt{Lhs: []ast.Expr{elem}, Tok: token.DEFINE, Rhs: []ast.Expr{&ast.IndexExpr{X: ln.Args[0], Index: init.Lhs[0]}}}}, body...)}}
+		bind = fs.Body.List[0].(*ast.AssignStmt)
 	}
 	for _, st := range fs.Body.List[1:] {
 		bad := false
